@@ -98,10 +98,7 @@ class BundleInstance:
     ):
         self.name = name
         self.of = of
-        if isinstance(port, Visibility):
-            # Accept the `Signal`-style spelling too. (Both `Visibility` values are truthy.)
-            port = port == Visibility.PORT
-        self.port = bool(port)  # FIXME: make this a `Visibility`
+        self.port = port  # FIXME: make this a `Visibility`
         self.flipped = flipped
         self.role = role
         self.src = src
@@ -115,6 +112,18 @@ class BundleInstance:
         self._parent_module: Optional["Module"] = None
         self._elaborated = False
         self._initialized = True
+
+    @property
+    def port(self) -> bool:
+        """Boolean indication of port-visibility"""
+        return self._port
+
+    @port.setter
+    def port(self, port: Union[bool, Visibility]) -> None:
+        if isinstance(port, Visibility):
+            # Accept the `Signal`-style spelling too. (Both `Visibility` values are truthy.)
+            port = port == Visibility.PORT
+        self._port = bool(port)
 
     """ Special Methods """
 
